@@ -6,7 +6,7 @@ From Coq Require Import ZArith.
 From Coq Require String.
 Import String.StringSyntax.
 From NV Require Import Base.Bytes Isa.Codec Isa.CodecProofs gen.IsaTable gen.AsmConsts.
-From NV Require Import Isa.Asm Isa.AsmDec Isa.AsmLine Isa.AsmProofs.
+From NV Require Import Isa.Asm Isa.AsmDec Isa.AsmLine Isa.AsmProofs Isa.AsmWitness.
 Import ListNotations.
 Local Open Scope N_scope.
 
@@ -112,6 +112,11 @@ Theorem C11_asm_disasm_module :
 Proof. exact (fun pf sf g H => asm_disasm_module table_list pf sf g C11_names_ok C11_comment_ops_ok H). Qed.
 Print Assumptions C11_asm_disasm_module.
 
+(* the harness evaluates the hypothesis with wf_conjuncts_fast (one decode per function); it is the same list of booleans *)
+Theorem C11_wf_fast_is_wf : forall good m, wf_conjuncts_fast table_list good m = wf_conjuncts table_list good m.
+Proof. exact (wf_conjuncts_fast_eq table_list). Qed.
+Print Assumptions C11_wf_fast_is_wf.
+
 (* refusals *)
 Theorem C11_asm_unknown_mnemonic : forall parse_f64 st mn rest,
   opcode_by_name table_list mn = None -> asm_instruction table_list parse_f64 st mn rest = inr asm_err_unknown_opcode.
@@ -128,64 +133,50 @@ Theorem C11_oracle_satisfiable : forall v, toy_good v = true -> f64_text_ok toy_
 Proof. exact toy_oracle_ok. Qed.
 Print Assumptions C11_oracle_satisfiable.
 
-(* ---- concrete modules (bytes in decimal).  fn = name_idx arity off len locals upv *)
-Definition F (n a o l lo u : N) : fent := {| fn_name := n; fn_arity := a; fn_off := o; fn_len := l; fn_locals := lo; fn_upv := u |}.
-Definition Mo (fl en : N) ss fs c : module := {| m_flags := fl; m_entry := en; m_strings := ss; m_funcs := fs; m_code := c |}.
-Definition nof (_ : N) : text := [].
-Definition nop (_ : text) : option (N * text) := None.
-
-(* hypotheses satisfiable + the text of the worked example: two functions, a loop with a backward and a forward jump, a
-   string shown in a comment, a call, a MATCH_TAG jump to the end of the function *)
-Definition ex_module : module :=
-  Mo 1 1 [B "add"; B "main"; B "hi there"]
-     [F 0 2 0 8 2 0; F 1 0 8 68 1 0]
-     [16; 0; 0; 16; 1; 0; 32; 61;
-      1; 0; 0; 0; 0; 0; 0; 0; 0; 17; 0; 0; 16; 0; 0; 1; 3; 0; 0; 0; 0; 0; 0; 0; 42; 58; 16; 0; 0; 0; 4; 2; 0; 0; 0; 164;
-      56; 232; 255; 255; 255; 107; 7; 0; 21; 0; 0; 0; 59; 0; 0; 0; 0; 1; 251; 255; 255; 255; 255; 255; 255; 255; 57; 6; 0; 0; 0; 61].
+(* concrete modules: NV.Isa.AsmWitness (definitions only) *)
 Example C11_text_nonvacuous :
   wf_moduleb table_list toy_good ex_module = true /\ roundtrip_ok table_list toy_print toy_parse ex_module = true.
 Proof. vm_compute. split; reflexivity. Qed.
 
 (* refuted on the unchanged tools: each witness violates exactly one conjunct of wf_moduleb and the (faithful) model loses or
    refuses it; every witness is replayed on the real disassembler+assembler by the check (known_findings.d/C11.json). *)
-Definition ret1 : list byte := [61].
 (* a string containing ';' : asm_assemble strips comments before parsing .string -> ASM_ERR_SYNTAX at line 2 *)
 Theorem C11_text_roundtrip_refuted_string_semicolon :
   exists m, forall pf sf, roundtrip_err table_list pf sf m = Some (asm_err_syntax, 2).
-Proof. exists (Mo 1 0 [B "f"; B "a;b"] [F 0 0 0 1 1 0] ret1). intros pf sf. vm_compute. reflexivity. Qed.
+Proof. exists (Mo 1 0 [B "f"; B "a;b"] [Fe 0 0 0 1 1 0] ret1). intros pf sf. vm_compute. reflexivity. Qed.
 Print Assumptions C11_text_roundtrip_refuted_string_semicolon.
 (* a newline in a string shown in the PUSH_STR comment: the tail "RET" is assembled as an extra instruction, silently *)
 Theorem C11_text_roundtrip_refuted_string_newline :
   exists m, forall pf sf, roundtrip_ok table_list pf sf m = false /\ roundtrip_err table_list pf sf m = None.
-Proof. exists (Mo 1 0 [B "f"; [120; 10; 82; 69; 84]] [F 0 0 0 6 1 0] [4;1;0;0;0; 61]). intros pf sf. vm_compute. split; reflexivity. Qed.
+Proof. exists (Mo 1 0 [B "f"; [120; 10; 82; 69; 84]] [Fe 0 0 0 6 1 0] [4;1;0;0;0; 61]). intros pf sf. vm_compute. split; reflexivity. Qed.
 Print Assumptions C11_text_roundtrip_refuted_string_newline.
 (* an embedded NUL: the string comes back truncated *)
 Theorem C11_text_roundtrip_refuted_string_nul :
   exists m, forall pf sf, roundtrip_ok table_list pf sf m = false /\ roundtrip_err table_list pf sf m = None.
-Proof. exists (Mo 1 0 [B "f"; [120; 0; 121]] [F 0 0 0 1 1 0] ret1). intros pf sf. vm_compute. split; reflexivity. Qed.
+Proof. exists (Mo 1 0 [B "f"; [120; 0; 121]] [Fe 0 0 0 1 1 0] ret1). intros pf sf. vm_compute. split; reflexivity. Qed.
 Print Assumptions C11_text_roundtrip_refuted_string_nul.
 (* a function name that is not an identifier *)
 Theorem C11_text_roundtrip_refuted_function_name :
   exists m, forall pf sf, roundtrip_err table_list pf sf m = Some (asm_err_syntax, 5).
-Proof. exists (Mo 1 0 [B "a.b"] [F 0 0 0 1 1 0] ret1). intros pf sf. vm_compute. reflexivity. Qed.
+Proof. exists (Mo 1 0 [B "a.b"] [Fe 0 0 0 1 1 0] ret1). intros pf sf. vm_compute. reflexivity. Qed.
 Print Assumptions C11_text_roundtrip_refuted_function_name.
 (* code not laid out in function-table order: code section and code offsets come back permuted *)
 Theorem C11_text_roundtrip_refuted_layout :
   exists m, forall pf sf, roundtrip_ok table_list pf sf m = false /\ roundtrip_err table_list pf sf m = None.
-Proof. exists (Mo 1 1 [B "a"; B "b"] [F 0 0 2 2 0 0; F 1 2 0 2 3 0] [0;163; 5;61]). intros pf sf. vm_compute. split; reflexivity. Qed.
+Proof. exists (Mo 1 1 [B "a"; B "b"] [Fe 0 0 2 2 0 0; Fe 1 2 0 2 3 0] [0;163; 5;61]). intros pf sf. vm_compute. split; reflexivity. Qed.
 Print Assumptions C11_text_roundtrip_refuted_layout.
 (* JMP L0 ; JMP 100 ; L0: RET -- the numeric operand steals the label's patch: both jumps come back wrong, silently *)
 Theorem C11_text_roundtrip_refuted_numeric_after_label :
   exists m, forall pf sf, roundtrip_ok table_list pf sf m = false /\ roundtrip_err table_list pf sf m = None.
-Proof. exists (Mo 1 0 [B "f"] [F 0 0 0 11 1 0] [56;10;0;0;0; 56;100;0;0;0; 61]). intros pf sf. vm_compute. split; reflexivity. Qed.
+Proof. exists (Mo 1 0 [B "f"] [Fe 0 0 0 11 1 0] [56;10;0;0;0; 56;100;0;0;0; 61]). intros pf sf. vm_compute. split; reflexivity. Qed.
 Print Assumptions C11_text_roundtrip_refuted_numeric_after_label.
 (* a jump into the middle of an instruction: the label is referenced but never defined -> ASM_ERR_UNDEFINED_LABEL *)
 Theorem C11_text_roundtrip_refuted_mid_instruction :
   exists m, forall pf sf, roundtrip_err table_list pf sf m = Some (asm_err_undefined_label, 9).
-Proof. exists (Mo 1 0 [B "f"] [F 0 0 0 15 1 0] [1;5;0;0;0;0;0;0;0; 56;248;255;255;255; 61]). intros pf sf. vm_compute. reflexivity. Qed.
+Proof. exists (Mo 1 0 [B "f"] [Fe 0 0 0 15 1 0] [1;5;0;0;0;0;0;0;0; 56;248;255;255;255; 61]). intros pf sf. vm_compute. reflexivity. Qed.
 Print Assumptions C11_text_roundtrip_refuted_mid_instruction.
 (* a byte that is not an opcode inside the code: printed as a comment, dropped by the round trip *)
 Theorem C11_text_roundtrip_refuted_undecodable :
   exists m, forall pf sf, roundtrip_ok table_list pf sf m = false /\ roundtrip_err table_list pf sf m = None.
-Proof. exists (Mo 1 0 [B "f"] [F 0 0 0 3 1 0] [0; 11; 61]). intros pf sf. vm_compute. split; reflexivity. Qed.
+Proof. exists (Mo 1 0 [B "f"] [Fe 0 0 0 3 1 0] [0; 11; 61]). intros pf sf. vm_compute. split; reflexivity. Qed.
 Print Assumptions C11_text_roundtrip_refuted_undecodable.
